@@ -17,7 +17,11 @@ static void setup(void)
 	__CPROVER_assume(element_hashtable_create() == 0);
 	mkpeer(&O, true); mkpeer(&A, true); mkpeer(&C, true);
 	scn_build_begin();
+#ifdef USE_CALL
+	cJSON *add = mkreq("add", 1, path_params("s", NO_VALUE));      /* a method: the routed request is a call with args */
+#else
 	cJSON *add = mkreq("add", 1, path_params("s", 1));
+#endif
 	scn_build_end();
 	__CPROVER_assume(dispatch(&O, add) == 0);
 	reset_log();
@@ -26,7 +30,12 @@ static void setup(void)
 static int do_set(struct peer *p, int id, int v)
 {
 	scn_build_begin();
+#ifdef USE_CALL
+	cJSON *cp = cJSON_CreateObject(); cJSON_AddItemToObject(cp, "path", cJSON_CreateString("s")); cJSON_AddItemToObject(cp, "args", mknumber(v));
+	cJSON *req = mkreq_id("call", id ? cJSON_CreateNumber(id) : 0, cp);
+#else
 	cJSON *req = mkreq_id("set", id ? cJSON_CreateNumber(id) : 0, path_params("s", v));
+#endif
 	scn_build_end();
 	int before = nlog;
 	int r = dispatch(p, req);
